@@ -4,9 +4,9 @@ Spec: spec/Determinism.tla — self-composition of the sampler machine (two copi
 same RNG stream, different environments: dependency-collection order, requirement-check order,
 internal randomness, prior history).  TLC: the insertion-ordered model must satisfy
 Deterministic/PrefixConsistent/StreamUntouched/FlagsFresh; the set-ordered model (the
-as-implemented deviation) must FAIL Deterministic (counterexample recorded) and must pass on
-programs with fewer than two requirement-only random roots (trigger lemma); the model without
-RestoreRng must fail.
+as-implemented deviation, trigger: at least two requirement-only random roots) must FAIL
+DeterministicScene (counterexample recorded in the evidence); the model without RestoreRng
+must fail too.
 
 Binding: cross-process trace validation.  Every generated program is compiled and sampled in N
 FRESH interpreters (harness/c15_worker.py) with the same seeds and different perturbations
